@@ -25,7 +25,10 @@ static void run(const std::vector<std::string> & t)
   const size_t way = t.size() % 3;
   if (way == 1) {rcB.setGridIndexMapping(&m);}
   if (way == 2) {rcC.setGridIndexMapping(&m);}
-  RayCasting<S, DIM> & rc = way == 0 ? rcA : (way == 1 ? rcB : rcC);
+  RayCasting<S, DIM> & rc0 = way == 0 ? rcA : (way == 1 ? rcB : rcC);
+  // a caster is a value: for some cases the whole sequence runs on a copy of the configured caster
+  RayCasting<S, DIM> rcCopy(rc0);
+  RayCasting<S, DIM> & rc = (t.size() % 5 == 3) ? rcCopy : rc0;
   auto n = m.getNumberOfCellsAlongAxes();
   std::cout << "N";
   for (size_t d = 0; d < DIM; ++d) {std::cout << " " << static_cast<long long>(n[d]);}
